@@ -23,9 +23,9 @@ META = {
     "a state is non-trivial when it has >= 2 distinct haplotypes or a duplicated haplotype among >= 3 copies; "
     "orchestration runs enumerate every gate/swap answer sequence",
     "bound": {
-        "quick": "P in {2,3,4}; n_alleles in {(2,2),(3,2),(2,2,2)} (P=4: (2,2) and (2,2,2)); 2 read sets; (F,T) in {(0,1),(0.3,1),(0.3,0.5),(0.1,0.25)}; "
+        "quick": "P in {2,3,4}; n_alleles in {(2,2),(3,2),(2,2,2)} (P=4: (2,2) and (2,2,2)); 2 read sets; (F,T) in {(0,1),(0.3,1),(0.3,0.5),(0.1,0.25),(0.004,1)}; "
         "all contiguous intervals; ladders (0.5,1),(0.25,0.5,1); orchestration: ladders 1..3, 2 steps (3 temps: 1 step)",
-        "thorough": "adds P=3x(3,3), P in {5,6}x(2,2), P=3x(2,2,2,2), P=4x(3,2), P=4x(3,3), P=3x(3,2,2), P=2x(2,2,2,2), P=2x(3,3,2), P=2x(4,2); F in {0,0.05,0.3,0.9}; T in {1,0.5,0.1}",
+        "thorough": "adds P=3x(3,3), P in {5,6}x(2,2), P=3x(2,2,2,2), P=4x(3,2), P=4x(3,3), P=3x(3,2,2), P=2x(2,2,2,2), P=2x(3,3,2), P=2x(4,2); F in {0,0.004,0.05,0.3,0.9}; T in {1,0.5,0.1}",
     },
     "assumptions": [
         "py_func and the compiled dispatcher execute the same source; machine-level divergence is checked by predicting the "
@@ -66,8 +66,8 @@ def instances(tier):
 
 def ft_pairs(tier):
     if tier == "quick":
-        return [(0.0, 1.0), (0.3, 1.0), (0.3, 0.5), (0.1, 0.25)]
-    return [(F, T) for F in (0.0, 0.05, 0.3, 0.9) for T in (1.0, 0.5, 0.1)]
+        return [(0.0, 1.0), (0.3, 1.0), (0.3, 0.5), (0.1, 0.25), (0.004, 1.0)]
+    return [(F, T) for F in (0.0, 0.004, 0.05, 0.3, 0.9) for T in (1.0, 0.5, 0.1)]
 
 
 def plan(tier, seed):
